@@ -19,8 +19,8 @@ MODES = {
     'C03': ['bnd_tables', 'bnd_doc', 'c03_elements'],
     'C04': ['bnd_c04'],
     'C05': ['bnd_tables'],
-    'C06': ['bnd_tables'],
-    'C07': ['bnd_c07', 'c07_ol'],
+    'C06': ['bnd_tables', 'c06_positions'],
+    'C07': ['bnd_c07', 'c07_ol', 'c07_compose'],
     'C08': ['bnd_c08'],
     'C09': ['bnd_c09', 'c16_affix'],
     'C11': ['bnd_doc', 'bnd_tables'],
@@ -28,7 +28,7 @@ MODES = {
     'C13': ['bnd_c13', 'c13_minwrap'],
     'C14': ['bnd_c14', 'c14_hardwrap', 'c14_elements'],
     'C15': ['bnd_c15'],
-    'C16': ['bnd_doc', 'c16_prefix', 'c16_affix', 'c16_trivial'],
+    'C16': ['bnd_doc', 'c16_prefix', 'c16_affix', 'c16_trivial', 'c07_compose'],
     'C18': ['bnd_c18'],
     'C19': ['c19', 'c19_inherit', 'c19_block', 'c19_order'],
     'C20': ['bnd_c20', 'c20_nth'],
@@ -51,6 +51,8 @@ LEGACY_BOUND = {
     'c14_hardwrap': '3 documents x widths 3..=8: an id whose first word is hard-wrapped still yields exactly one fragment marker',
 }
 STANDS_FOR = {
+    'c06_positions': 'render_table_tree / RenderTable::new / into_cells / append_columns_with_borders as a whole: where each cell ends up relative to the column bars',
+    'c07_compose': 'do_render_node (BlockQuote, Ul, Ol, Dl arms and their closures), width_minus, new_sub_renderer, append_subrender composed: compositionality of prefixed blocks',
     'c14_elements': 'process_dom_node (id / name extraction for every element kind), insert_child, and the marker paths through word buffer, pending list and sub-renderers',
     'c03_elements': 'process_dom_node: which element becomes which render node (lists and definition lists with stray children, table sections, captions, form controls, foreign elements), and the table / list constructors that filter their children',
     'c13_minwrap': 'calc_size_estimate (Text arm: min_width = min(len, min_wrap_width) per text NODE) with width_minus: the two smallest documents showing finding D21',
